@@ -5,8 +5,8 @@ namespace ConnFull
 /-- the agreement between the write queue, the conn's belief (`isWAdded`) and the kernel's epoll
     registration -/
 structure InvA (g : Cfg) (s : S) : Prop where
-  /-- the conn believes EPOLLOUT is armed exactly when a backlog exists -/
-  wadd : s.closed = false → s.hung = false → (s.isWAdded = true ↔ s.wl ≠ [])
+  /-- the conn believes EPOLLOUT is armed exactly when a backlog exists (or the connect is in progress) -/
+  wadd : s.closed = false → s.hung = false → (s.isWAdded = true ↔ (s.wl ≠ [] ∨ s.connecting = true))
   /-- once registered, the kernel's interest set agrees with that belief (ET: EPOLLOUT always) -/
   kout : s.closed = false → s.reg = true → s.kOut = (s.isWAdded || g.mode == .et)
   /-- only ONESHOT disarms -/
@@ -15,6 +15,11 @@ structure InvA (g : Cfg) (s : S) : Prop where
   rr : s.rearm = true → s.reg = true
   /-- a disarmed descriptor has its re-arm (or its close) pending in the poller -/
   dis : s.closed = false → s.disarmed = true → s.rearm = true ∨ s.evErr = true
+  /-- the connected callback only runs for a connect that was in progress; while the connect is in
+      progress the only event with a tail is the one that completes it -/
+  cev : s.connEv = true → s.connecting = true
+  cre : s.rearm = true → s.connecting = true → s.connEv = true
+  cnr : s.connecting = true → s.reg = true
 
 theorem invA_init (g : Cfg) : InvA g init := by
   constructor <;> simp [init]
@@ -35,41 +40,59 @@ theorem Enq.grow {g : Cfg} {s t : S} {x : Bytes} (h : Enq g s t x) : Grow s t :=
 
 theorem E_fields {s t : S} (h : E t = E s) :
     t.isWAdded = s.isWAdded ∧ t.rearm = s.rearm ∧ t.evErr = s.evErr ∧ t.reg = s.reg ∧ t.kOut = s.kOut ∧
-    t.disarmed = s.disarmed ∧ t.ctl = s.ctl ∧ t.onClose = s.onClose := by
-  simpa [E] using h
+    t.disarmed = s.disarmed ∧ t.connecting = s.connecting ∧ t.connEv = s.connEv := by
+  simp only [E, Prod.mk.injEq] at h
+  obtain ⟨h1, h2, h3, h4, h5, h6, _, _, h9, h10⟩ := h
+  exact ⟨h1, h2, h3, h4, h5, h6, h9, h10⟩
 
 /-- a data-only change that keeps the emptiness of the queue keeps the arming invariant -/
 theorem invA_grow {g : Cfg} {s t : S} (hi : InvA g s) (hg : Grow s t) (hemp : s.wl = [] → t.wl = []) : InvA g t := by
-  obtain ⟨e1, e2, e3, e4, e5, e6, _, _⟩ := E_fields hg.e
+  obtain ⟨e1, e2, e3, e4, e5, e6, e7, e8⟩ := E_fields hg.e
   constructor
   · intro hc hh
-    rw [e1, hi.wadd (hg.closed ▸ hc) (hg.hung ▸ hh)]
+    rw [e1, e7, hi.wadd (hg.closed ▸ hc) (hg.hung ▸ hh)]
     constructor
-    · exact hg.ne
-    · intro h1 h2; exact h1 (hemp h2)
+    · intro h; rcases h with h | h
+      · exact Or.inl (hg.ne h)
+      · exact Or.inr h
+    · intro h; rcases h with h | h
+      · exact Or.inl (fun h2 => h (hemp h2))
+      · exact Or.inr h
   · rw [hg.closed, e4, e5, e1]; exact hi.kout
   · rw [e6, e2]; exact hi.nos
   · rw [e2, e4]; exact hi.rr
   · rw [hg.closed, e6, e2, e3]; exact hi.dis
+  · rw [e8, e7]; exact hi.cev
+  · rw [e2, e7, e8]; exact hi.cre
+  · rw [e7, e4]; exact hi.cnr
 
 theorem invA_closeNow {g : Cfg} {s : S} (hi : InvA g s) : InvA g (closeNow s) := by
   constructor <;> simp [closeNow]
   · exact hi.nos
   · exact hi.rr
+  · exact hi.cev
+  · exact hi.cre
+  · exact hi.cnr
 
 /-- Write's tail on a state whose queue is non-empty: arm -/
 theorem invA_arm {g : Cfg} {s t : S} (hi : InvA g s) (hc : s.closed = false) (hg : Grow s t) (hne : t.wl ≠ []) :
     InvA g (cModWrite g t) := by
-  obtain ⟨e1, e2, e3, e4, e5, e6, _, _⟩ := E_fields hg.e
+  obtain ⟨e1, e2, e3, e4, e5, e6, e7, e8⟩ := E_fields hg.e
   have hc' : t.closed = false := hg.closed ▸ hc
   have hko := hi.kout hc
   have hno := hi.nos
   have hrr := hi.rr
   have hdi := hi.dis hc
+  have hce := hi.cev
+  have hcr := hi.cre
+  have hcn := hi.cnr
+  rw [← e7, ← e4] at hcn
   rw [← e1, ← e4, ← e5] at hko
   rw [← e6, ← e2] at hno
   rw [← e2, ← e4] at hrr
   rw [← e6, ← e2, ← e3] at hdi
+  rw [← e8, ← e7] at hce
+  rw [← e2, ← e7, ← e8] at hcr
   have hD := D_cModWrite g t
   simp only [D, Prod.mk.injEq] at hD
   obtain ⟨d1, d2, d3, _, _, _⟩ := hD
@@ -77,10 +100,13 @@ theorem invA_arm {g : Cfg} {s t : S} (hi : InvA g s) (hc : s.closed = false) (hg
     (constructor <;> simp_all [cModWrite, pModWrite, kctl])
 
 theorem invA_closeNow_grow {g : Cfg} {s t : S} (hi : InvA g s) (hg : Grow s t) : InvA g (closeNow t) := by
-  obtain ⟨e1, e2, e3, e4, e5, e6, _, _⟩ := E_fields hg.e
+  obtain ⟨e1, e2, e3, e4, e5, e6, e7, e8⟩ := E_fields hg.e
   constructor <;> simp [closeNow]
   · rw [e6, e2]; exact hi.nos
   · rw [e2, e4]; exact hi.rr
+  · rw [e8, e7]; exact hi.cev
+  · rw [e2, e7, e8]; exact hi.cre
+  · rw [e7, e4]; exact hi.cnr
 
 theorem invA_finishCall {g : Cfg} {s : S} (r : S × Ret) (hi : InvA g s) (hc : s.closed = false) (hg : Grow s r.1) :
     InvA g (finishCall g r).1 := by
@@ -209,19 +235,23 @@ theorem invA_sendfile (g : Cfg) (s : S) (off len : Nat) (ks : List KAns) (hi : I
 
 /-- the arming invariant without the `dis` clause (which is suspended while an event is handled) -/
 structure InvK (g : Cfg) (s : S) : Prop where
-  wadd : s.closed = false → s.hung = false → (s.isWAdded = true ↔ s.wl ≠ [])
+  wadd : s.closed = false → s.hung = false → (s.isWAdded = true ↔ (s.wl ≠ [] ∨ s.connecting = true))
   kout : s.closed = false → s.reg = true → s.kOut = (s.isWAdded || g.mode == .et)
   nos : g.mode ≠ .oneshot → s.disarmed = false ∧ s.rearm = false
   rr : s.rearm = true → s.reg = true
+  cev : s.connEv = true → s.connecting = true
+  cre : s.rearm = true → s.connecting = true → s.connEv = true
+  cnr : s.connecting = true → s.reg = true
 
-theorem InvA.toK {g : Cfg} {s : S} (h : InvA g s) : InvK g s := ⟨h.wadd, h.kout, h.nos, h.rr⟩
+theorem InvA.toK {g : Cfg} {s : S} (h : InvA g s) : InvK g s := ⟨h.wadd, h.kout, h.nos, h.rr, h.cev, h.cre, h.cnr⟩
 
-/-- the kernel-side clauses as a predicate of the poller/kernel fields alone -/
-def KOK (g : Cfg) (e : Bool × Bool × Bool × Bool × Bool × Bool × List Ctl × Nat) : Prop :=
+/-- the kernel-side clauses as a predicate of the poller/kernel fields alone (no connect in progress) -/
+def KOK (g : Cfg) (e : Bool × Bool × Bool × Bool × Bool × Bool × List Ctl × Nat × Bool × Bool) : Prop :=
   match e with
-  | (isWAdded, rearm, _, reg, kOut, disarmed, _, _) =>
+  | (isWAdded, rearm, _, reg, kOut, disarmed, _, _, connecting, connEv) =>
     (reg = true → kOut = (isWAdded || g.mode == .et)) ∧
-    (g.mode ≠ .oneshot → disarmed = false ∧ rearm = false) ∧ (rearm = true → reg = true)
+    (g.mode ≠ .oneshot → disarmed = false ∧ rearm = false) ∧ (rearm = true → reg = true) ∧
+    connecting = false ∧ connEv = false
 
 theorem invK_flushLoop (g : Cfg) : ∀ (fuel : Nat) (s : S) (ks : List KAns),
     s.closed = false → s.isWAdded = true → KOK g (E s) → InvK g (flushLoop g fuel s ks) := by
@@ -229,23 +259,23 @@ theorem invK_flushLoop (g : Cfg) : ∀ (fuel : Nat) (s : S) (ks : List KAns),
   induction fuel with
   | zero =>
     intro s ks hc hw hk
-    obtain ⟨k1, k2, k3⟩ := hk
+    obtain ⟨k1, k2, k3, k4, k5⟩ := hk
     unfold flushLoop
-    exact ⟨by simp, fun _ => k1, k2, k3⟩
+    exact ⟨by simp, fun _ => k1, k2, k3, by simp [k5], by simp [k4], by simp [k4]⟩
   | succ fuel ih =>
     intro s ks hc hw hk
     have stay : ∀ t tl, s.wl = t :: tl → InvK g s := by
       intro t tl hwl
-      obtain ⟨k1, k2, k3⟩ := hk
-      exact ⟨fun _ _ => by simp [hw, hwl], fun _ => k1, k2, k3⟩
+      obtain ⟨k1, k2, k3, k4, k5⟩ := hk
+      exact ⟨fun _ _ => by simp [hw, hwl], fun _ => k1, k2, k3, by simp [k5], by simp [k4], by simp [k4]⟩
     have closeit : InvK g (closeNow s) := by
-      obtain ⟨k1, k2, k3⟩ := hk
-      exact ⟨by simp [closeNow], by simp [closeNow], k2, k3⟩
+      obtain ⟨k1, k2, k3, k4, k5⟩ := hk
+      exact ⟨by simp [closeNow], by simp [closeNow], k2, k3, by simp [closeNow, k5], by simp [closeNow, k4], by simp [closeNow, k4]⟩
     unfold flushLoop
     split
     · -- drained: c.resetRead()
       rename_i hwl
-      obtain ⟨k1, k2, k3⟩ := hk
+      obtain ⟨k1, k2, k3, k4, k5⟩ := hk
       have hD := D_cResetRead g s
       simp only [D, Prod.mk.injEq] at hD
       obtain ⟨d1, d2, d3, _, _, _⟩ := hD
@@ -286,19 +316,22 @@ structure Calm (s t : S) : Prop where
   rearm : t.rearm = s.rearm
   evErr : t.evErr = s.evErr
   dis : t.disarmed = true → s.disarmed = true
+  connecting : t.connecting = s.connecting
+  connEv : t.connEv = s.connEv
 
-theorem Calm.refl (s : S) : Calm s s := ⟨rfl, rfl, rfl, id⟩
+theorem Calm.refl (s : S) : Calm s s := ⟨rfl, rfl, rfl, id, rfl, rfl⟩
 theorem Calm.trans {s t u : S} (h1 : Calm s t) (h2 : Calm t u) : Calm s u :=
-  ⟨h2.reg.trans h1.reg, h2.rearm.trans h1.rearm, h2.evErr.trans h1.evErr, fun h => h1.dis (h2.dis h)⟩
+  ⟨h2.reg.trans h1.reg, h2.rearm.trans h1.rearm, h2.evErr.trans h1.evErr, fun h => h1.dis (h2.dis h),
+   h2.connecting.trans h1.connecting, h2.connEv.trans h1.connEv⟩
 
 theorem calm_cResetRead (g : Cfg) (s : S) : Calm s (cResetRead g s) := by
-  cases hm : g.mode <;> cases hr : s.reg <;> cases hw : s.isWAdded <;> cases hc : s.closed <;>
+  cases hm : g.mode <;> cases hr : s.reg <;> cases hw : s.isWAdded <;> cases hc : s.closed <;> cases hwl : s.wl <;>
     (constructor <;> simp_all [cResetRead, pResetRead, kctl])
 
 theorem calm_flushLoop (g : Cfg) : ∀ (fuel : Nat) (s : S) (ks : List KAns), Calm s (flushLoop g fuel s ks) := by
   intro fuel
   induction fuel with
-  | zero => intro s ks; unfold flushLoop; exact ⟨rfl, rfl, rfl, id⟩
+  | zero => intro s ks; unfold flushLoop; exact ⟨rfl, rfl, rfl, id, rfl, rfl⟩
   | succ fuel ih =>
     intro s ks
     unfold flushLoop
@@ -311,27 +344,28 @@ theorem calm_flushLoop (g : Cfg) : ∀ (fuel : Nat) (s : S) (ks : List KAns), Ca
       · exact Calm.refl s
       · exact Calm.refl s
       · exact ih s _
-      · exact ⟨rfl, rfl, rfl, id⟩
+      · exact ⟨rfl, rfl, rfl, id, rfl, rfl⟩
       · split
         · exact ih s _
         split
-        · exact Calm.trans (by exact ⟨rfl, rfl, rfl, id⟩) (ih _ _)
-        · exact Calm.trans (by exact ⟨rfl, rfl, rfl, id⟩) (ih _ _)
+        · exact Calm.trans (by exact ⟨rfl, rfl, rfl, id, rfl, rfl⟩) (ih _ _)
+        · exact Calm.trans (by exact ⟨rfl, rfl, rfl, id, rfl, rfl⟩) (ih _ _)
     · split
       · exact ih s ks
       split
       · exact Calm.refl s
       · exact Calm.refl s
       · exact ih s _
-      · exact ⟨rfl, rfl, rfl, id⟩
+      · exact ⟨rfl, rfl, rfl, id, rfl, rfl⟩
       · simp only
         split
         · exact ih s _
         split
-        · exact Calm.trans (by exact ⟨rfl, rfl, rfl, id⟩) (ih _ _)
-        · exact Calm.trans (by exact ⟨rfl, rfl, rfl, id⟩) (ih _ _)
+        · exact Calm.trans (by exact ⟨rfl, rfl, rfl, id, rfl, rfl⟩) (ih _ _)
+        · exact Calm.trans (by exact ⟨rfl, rfl, rfl, id, rfl, rfl⟩) (ih _ _)
 
-theorem invK_flush (g : Cfg) (s : S) (ks : List KAns) (hi : InvK g s) (hh : s.hung = false) : InvK g (flush g s ks) := by
+theorem invK_flush (g : Cfg) (s : S) (ks : List KAns) (hi : InvK g s) (hh : s.hung = false)
+    (hcn : s.connecting = false) : InvK g (flush g s ks) := by
   unfold flush
   split
   · exact hi
@@ -340,8 +374,12 @@ theorem invK_flush (g : Cfg) (s : S) (ks : List KAns) (hi : InvK g s) (hh : s.hu
   split
   · exact hi
   · rename_i hne
-    have hw : s.isWAdded = true := (hi.wadd hc hh).mpr (isEmpty_ne_true hne)
-    exact invK_flushLoop g _ s ks hc hw ⟨hi.kout hc, hi.nos, hi.rr⟩
+    have hw : s.isWAdded = true := (hi.wadd hc hh).mpr (Or.inl (isEmpty_ne_true hne))
+    have hce : s.connEv = false := by
+      cases h : s.connEv
+      · rfl
+      · have := hi.cev h; simp [hcn] at this
+    exact invK_flushLoop g _ s ks hc hw ⟨hi.kout hc, hi.nos, hi.rr, hcn, hce⟩
 
 theorem calm_flush (g : Cfg) (s : S) (ks : List KAns) : Calm s (flush g s ks) := by
   unfold flush
@@ -363,30 +401,47 @@ theorem invA_register (g : Cfg) (s : S) (hi : InvA g s) : InvA g (register g s) 
     have hwa := hi.wadd hc hh
     have hno := hi.nos
     have hrr := hi.rr
+    have hce := hi.cev
+    have hcr := hi.cre
+    have hcnr := hi.cnr
     split
     · rename_i he
       have hwl : s.wl = [] := isEmpty_eq_true he
-      cases hm : g.mode <;> cases hw : s.isWAdded <;> cases hre : s.rearm <;>
+      cases hm : g.mode <;> cases hw : s.isWAdded <;> cases hre : s.rearm <;> cases hcn : s.connecting <;>
         (constructor <;> simp_all [pAddRead, kctl])
     · rename_i he
       have hwl : s.wl ≠ [] := isEmpty_ne_true he
-      cases hm : g.mode <;> cases hw : s.isWAdded <;> cases hre : s.rearm <;>
+      cases hm : g.mode <;> cases hw : s.isWAdded <;> cases hre : s.rearm <;> cases hcn : s.connecting <;>
         (constructor <;> simp_all [pAddReadWrite, kctl])
+
+theorem invA_registerDial (g : Cfg) (s : S) (hi : InvA g s) : InvA g (registerDial g s) := by
+  unfold registerDial
+  split
+  · exact hi
+  · rename_i h
+    have h3 : (s.hung = false ∧ s.reg = false) ∧ s.closed = false := by simpa using h
+    obtain ⟨⟨hh, hr⟩, hc⟩ := h3
+    have hno := hi.nos
+    have hrr := hi.rr
+    have hce := hi.cev
+    cases hm : g.mode <;> cases hre : s.rearm <;> cases hcv : s.connEv <;>
+      (constructor <;> simp_all [pAddReadWrite, kctl])
 
 theorem deliverable_some {s : S} {o i e : Bool}
     (h : ¬ (!((deliverable s o i e).1 || (deliverable s o i e).2.1 || (deliverable s o i e).2.2)) = true) :
     s.hung = false ∧ s.reg = true ∧ s.closed = false ∧ s.disarmed = false ∧ s.rearm = false ∧ s.evErr = false ∧
+    s.connEv = false ∧
     ((deliverable s o i e).1 || (deliverable s o i e).2.1 || (deliverable s o i e).2.2) = true := by
   unfold deliverable at h ⊢
   split at h
   · simp at h
   · rename_i hg
     simp at hg
-    obtain ⟨⟨⟨⟨⟨h1, h2⟩, h3⟩, h4⟩, h5⟩, h6⟩ := hg
-    rw [if_neg (by simp [h1, h2, h3, h4, h5, h6])]
-    refine ⟨h1, h2, h3, h4, h5, h6, ?_⟩
+    obtain ⟨⟨⟨⟨⟨⟨h1, h2⟩, h3⟩, h4⟩, h5⟩, h6⟩, h7⟩ := hg
+    rw [if_neg (by simp [h1, h2, h3, h4, h5, h6, h7])]
+    refine ⟨h1, h2, h3, h4, h5, h6, h7, ?_⟩
     revert h
-    cases o <;> cases i <;> cases e <;> cases s.kOut <;> simp
+    cases o <;> cases i <;> cases e <;> cases s.kOut <;> cases s.connecting <;> simp
 
 theorem invA_evTake (g : Cfg) (s : S) (o i e : Bool) (ks : List KAns) (hi : InvA g s) :
     InvA g (evTake g s o i e ks) := by
@@ -395,42 +450,95 @@ theorem invA_evTake (g : Cfg) (s : S) (o i e : Bool) (ks : List KAns) (hi : InvA
   split
   · exact hi
   · rename_i hdl
-    obtain ⟨hh, hr, hc, hdis, hre, hee, hany⟩ := deliverable_some hdl
-    generalize deliverable s o i e = d at hany ⊢
+    obtain ⟨hh, hr, hc, hdis, hre, hee, hcv, hany⟩ := deliverable_some hdl
+    -- while the connect is in progress no read part is delivered
+    have hin : s.connecting = true → (deliverable s o i e).2.1 = false := by
+      intro hcn
+      unfold deliverable
+      split <;> simp [hcn]
+    generalize deliverable s o i e = d at hany hin ⊢
     -- the kernel disarms (ONESHOT)
     have h1 : InvK g (if (g.mode == Mode.oneshot) = true then { s with disarmed := true } else s) ∧
-        Calm s (if (g.mode == Mode.oneshot) = true then { s with disarmed := false } else s) ∧
         ((if (g.mode == Mode.oneshot) = true then { s with disarmed := true } else s).disarmed = true → g.mode = .oneshot) ∧
         (if (g.mode == Mode.oneshot) = true then { s with disarmed := true } else s).hung = false ∧
-        (if (g.mode == Mode.oneshot) = true then { s with disarmed := true } else s).reg = true := by
+        (if (g.mode == Mode.oneshot) = true then { s with disarmed := true } else s).reg = true ∧
+        (if (g.mode == Mode.oneshot) = true then { s with disarmed := true } else s).connEv = false ∧
+        (if (g.mode == Mode.oneshot) = true then { s with disarmed := true } else s).connecting = s.connecting := by
       split
       · rename_i hm
         have hm : g.mode = .oneshot := by simpa using hm
-        exact ⟨⟨hi.wadd, hi.kout, fun h => absurd hm h, hi.rr⟩, ⟨rfl, rfl, rfl, by simp [hdis]⟩, fun _ => hm, hh, hr⟩
-      · exact ⟨hi.toK, Calm.refl s, fun h => by simp [hdis] at h, hh, hr⟩
-    obtain ⟨k1, _, k3, k4, k5⟩ := h1
-    generalize (if (g.mode == Mode.oneshot) = true then { s with disarmed := true } else s) = s1 at k1 k3 k4 k5 ⊢
-    -- the poller flushes
-    have h2 : InvK g (if d.1 = true then flush g s1 ks else s1) ∧ Calm s1 (if d.1 = true then flush g s1 ks else s1) := by
-      split
-      · exact ⟨invK_flush g s1 ks k1 k4, calm_flush g s1 ks⟩
-      · exact ⟨k1, Calm.refl s1⟩
-    obtain ⟨k6, k7⟩ := h2
-    generalize (if d.1 = true then flush g s1 ks else s1) = s2 at k6 k7 ⊢
-    constructor
-    · exact k6.wadd
-    · exact k6.kout
-    · intro hm
-      refine ⟨(k6.nos hm).1, ?_⟩
-      have : (g.mode == Mode.oneshot) = false := by simpa using hm
-      simp [this]
-    · intro _
-      show s2.reg = true
-      rw [k7.reg]; exact k5
-    · intro _ hd2
-      have hm := k3 (k7.dis hd2)
-      show (g.mode == Mode.oneshot && (d.1 || d.2.1)) = true ∨ d.2.2 = true
-      cases h1 : d.1 <;> cases h2 : d.2.1 <;> cases h3 : d.2.2 <;> simp_all
+        exact ⟨⟨hi.wadd, hi.kout, fun h => absurd hm h, hi.rr, hi.cev, hi.cre, hi.cnr⟩, fun _ => hm, hh, hr, hcv, rfl⟩
+      · exact ⟨hi.toK, fun h => by simp [hdis] at h, hh, hr, hcv, rfl⟩
+    obtain ⟨k1, k3, k4, k5, k8, k9⟩ := h1
+    generalize (if (g.mode == Mode.oneshot) = true then { s with disarmed := true } else s) = s1 at k1 k3 k4 k5 k8 k9 ⊢
+    by_cases hA : d.1 = true ∧ s1.connecting = true
+    · -- EPOLLOUT completes the connect: the connected callback starts (no flush)
+      obtain ⟨hd1, hcn⟩ := hA
+      rw [if_pos hd1, if_pos hcn]
+      constructor
+      · exact k1.wadd
+      · exact k1.kout
+      · intro hm
+        refine ⟨(k1.nos hm).1, ?_⟩
+        have : (g.mode == Mode.oneshot) = false := by simpa using hm
+        simp [this]
+      · intro _; exact k5
+      · intro _ hd2
+        have hm := k3 hd2
+        left
+        show (g.mode == Mode.oneshot && (d.1 || d.2.1)) = true
+        simp [hm, hd1]
+      · intro _; exact hcn
+      · intro _ _; rfl
+      · exact k1.cnr
+    · -- otherwise: flush (or nothing for the EPOLLOUT part)
+      have hs2 : (if d.1 = true then (if s1.connecting = true then { s1 with connEv := true } else flush g s1 ks) else s1) =
+          (if d.1 = true then flush g s1 ks else s1) := by
+        by_cases hd1 : d.1 = true
+        · have hcn : ¬ s1.connecting = true := fun h => hA ⟨hd1, h⟩
+          simp [hd1, hcn]
+        · simp [hd1]
+      rw [hs2]
+      have h2 : InvK g (if d.1 = true then flush g s1 ks else s1) ∧ Calm s1 (if d.1 = true then flush g s1 ks else s1) := by
+        split
+        · rename_i hd1
+          have hcn : s1.connecting = false := by
+            cases h : s1.connecting
+            · rfl
+            · exact absurd ⟨hd1, h⟩ hA
+          exact ⟨invK_flush g s1 ks k1 k4 hcn, calm_flush g s1 ks⟩
+        · exact ⟨k1, Calm.refl s1⟩
+      obtain ⟨k6, k7⟩ := h2
+      generalize (if d.1 = true then flush g s1 ks else s1) = s2 at k6 k7 ⊢
+      constructor
+      · exact k6.wadd
+      · exact k6.kout
+      · intro hm
+        refine ⟨(k6.nos hm).1, ?_⟩
+        have : (g.mode == Mode.oneshot) = false := by simpa using hm
+        simp [this]
+      · intro _
+        show s2.reg = true
+        rw [k7.reg]; exact k5
+      · intro _ hd2
+        have hm := k3 (k7.dis hd2)
+        show (g.mode == Mode.oneshot && (d.1 || d.2.1)) = true ∨ d.2.2 = true
+        cases h1 : d.1 <;> cases h2 : d.2.1 <;> cases h3 : d.2.2 <;> simp_all
+      · exact k6.cev
+      · -- rearm while the connect is still in progress: impossible here (no read part is delivered
+        -- then, and the EPOLLOUT part would have started the connected callback)
+        intro hra hcn2
+        exfalso
+        have hra' : (g.mode == Mode.oneshot && (d.1 || d.2.1)) = true := hra
+        have hc1 : s1.connecting = true := by rw [← k7.connecting]; exact hcn2
+        have hsc : s.connecting = true := by rw [← k9]; exact hc1
+        have hd2 := hin hsc
+        have hd1 : d.1 = false := by
+          cases h : d.1
+          · rfl
+          · exact absurd ⟨h, hc1⟩ hA
+        simp [hd1, hd2] at hra'
+      · exact k6.cnr
 
 theorem invA_evEnd (g : Cfg) (s : S) (hi : InvA g s) : InvA g (evEnd g s) := by
   unfold evEnd
@@ -439,31 +547,64 @@ theorem invA_evEnd (g : Cfg) (s : S) (hi : InvA g s) : InvA g (evEnd g s) := by
   · rename_i hh
     have hh : s.hung = false := by simpa using hh
     simp only
-    have h1 : InvA g (if s.rearm = true then resetPollerEvent g { s with rearm := false } else s) := by
+    -- the end of the connected callback: `c.onConnected = nil; c.resetRead()`
+    have h0 : InvA g (if s.connEv = true then cResetRead g { s with connecting := false, connEv := false } else s) ∧
+        (if s.connEv = true then cResetRead g { s with connecting := false, connEv := false } else s).hung = false ∧
+        (if s.connEv = true then cResetRead g { s with connecting := false, connEv := false } else s).connEv = false := by
       split
-      · rename_i hre
-        have hreg := hi.rr hre
-        have hm : g.mode = .oneshot := by
-          cases hm : g.mode
-          · exact absurd (hi.nos (by simp [hm])).2 (by simp [hre])
-          · exact absurd (hi.nos (by simp [hm])).2 (by simp [hre])
-          · rfl
+      · rename_i hcv
+        have hcn := hi.cev hcv
         have hwa := hi.wadd
         have hko := hi.kout
+        have hno := hi.nos
+        have hrr := hi.rr
         have hdi := hi.dis
-        cases hc : s.closed <;> cases hw : s.isWAdded <;> cases hwl : s.wl <;>
+        have hcr := hi.cre
+        have hcnr := hi.cnr
+        have hD := D_cResetRead g { s with connecting := false, connEv := false }
+        simp only [D, Prod.mk.injEq] at hD
+        obtain ⟨d1, d2, d3, _, _, _⟩ := hD
+        refine ⟨?_, by rw [d2]; exact hh, by rw [(calm_cResetRead g _).connEv]⟩
+        cases hm : g.mode <;> cases hc : s.closed <;> cases hw : s.isWAdded <;> cases hwl : s.wl <;> cases hr : s.reg <;>
+          (constructor <;> simp_all [cResetRead, pResetRead, kctl])
+      · rename_i hcv
+        exact ⟨hi, hh, by simpa using hcv⟩
+    obtain ⟨h0, hh0, hcv0⟩ := h0
+    generalize (if s.connEv = true then cResetRead g { s with connecting := false, connEv := false } else s) = s0 at h0 hh0 hcv0 ⊢
+    have h1 : InvA g (if s0.rearm = true then resetPollerEvent g { s0 with rearm := false } else s0) := by
+      split
+      · rename_i hre
+        have hreg := h0.rr hre
+        have hm : g.mode = .oneshot := by
+          cases hm : g.mode
+          · exact absurd (h0.nos (by simp [hm])).2 (by simp [hre])
+          · exact absurd (h0.nos (by simp [hm])).2 (by simp [hre])
+          · rfl
+        have hwa := h0.wadd
+        have hko := h0.kout
+        have hdi := h0.dis
+        have hce := h0.cev
+        have hcr := h0.cre hre
+        have hcnr := h0.cnr
+        cases hc : s0.closed <;> cases hw : s0.isWAdded <;> cases hwl : s0.wl <;> cases hcn : s0.connecting <;>
           (constructor <;> simp_all [resetPollerEvent, pResetRead, pModWrite, kctl])
-      · exact hi
-    generalize (if s.rearm = true then resetPollerEvent g { s with rearm := false } else s) = t at h1 ⊢
+      · exact h0
+    generalize (if s0.rearm = true then resetPollerEvent g { s0 with rearm := false } else s0) = t at h1 ⊢
     split
     · split
       · rename_i hc
-        exact ⟨h1.wadd, h1.kout, h1.nos, h1.rr, fun h => by simp [hc] at h⟩
+        exact ⟨h1.wadd, h1.kout, h1.nos, h1.rr, fun h => by simp [hc] at h, h1.cev, h1.cre, h1.cnr⟩
       · have hn := h1.nos
         have hr := h1.rr
+        have hce := h1.cev
+        have hcr := h1.cre
+        have hcn := h1.cnr
         constructor <;> simp [closeNow]
         · exact hn
         · exact hr
+        · exact hce
+        · exact hcr
+        · exact hcn
     · exact h1
 
 theorem invA_close (g : Cfg) (s : S) (hi : InvA g s) : InvA g (close s) := by
@@ -478,6 +619,7 @@ theorem invA_step (g : Cfg) (s : S) (op : Op) (hd : InvD g s) (hi : InvA g s) : 
   | writev bs k => exact invA_writev g s bs k hd hi
   | sendfile off len ks => exact invA_sendfile g s off len ks hi
   | register => exact invA_register g s hi
+  | registerDial => exact invA_registerDial g s hi
   | evTake o i e ks => exact invA_evTake g s o i e ks hi
   | evEnd => exact invA_evEnd g s hi
   | close => exact invA_close g s hi
